@@ -109,7 +109,7 @@ class Pool:
         exhausted = False
         errors = []
         while True:
-            while not exhausted and len(pending) < self.n * 2 and time.time() < deadline \
+            while not exhausted and len(pending) < self.n + 2 and time.time() < deadline \
                     and (max_tasks is None or n < max_tasks):
                 try:
                     t = next(it)
